@@ -5,13 +5,14 @@ import Jose.Driver.Entity
 import Jose.Driver.Jws
 import Jose.Driver.Jwe
 import Jose.Driver.Cli
+import Jose.Driver.Cfg
 /-
   Line-protocol driver: answers each `<op> <json>` line from the model.
   (`lake exe josemodel < ops`); see harness/hx.c for the real side.
 -/
 open Jose Jose.Driver
 
-def allOps : List (String × (Json → Json)) := b64Ops ++ ioOps ++ jwkOps ++ entityOps ++ jwsOps ++ jweOps ++ cliOps
+def allOps : List (String × (Json → Json)) := b64Ops ++ ioOps ++ jwkOps ++ entityOps ++ jwsOps ++ jweOps ++ cliOps ++ cfgOps
 
 def handle (line : String) : String :=
   let line := line.trimAscii.toString
